@@ -28,6 +28,10 @@ def fams(tier):
     return cachefam.evict_families("memory") + cachefam.evict_families("file")
 
 
+def traps(tier):
+    return [t for be in ('memory','file') for t in cachefam.trap_families(be) if 'reader' not in t['name']]
+
+
 def run(tier, seed):
     extra = []
     try:
